@@ -208,6 +208,37 @@ func TestC19(t *testing.T) {
 					}
 					// make the host stale for later peer requests: close its connection
 					conn.Close()
+					// the host comes back from another address with the very same override text:
+					// where the override names no host, the new connection's address counts
+					if !ov.Exotic && !ov.ForeignID {
+						for k, src3 := range []struct{ Addr, Host string }{{"198.51.100.201:40001", "198.51.100.201"}, {"[2001:db8:5::77]:40002", "2001:db8:5::77"}} {
+							conn3 := w.Dial(id, src3.Addr)
+							var raw3 interface{}
+							err3 := w.Signed(conn3.AgentSide, id, id.NodeID, method, &raw3, arg)
+							ev.Case(fmt.Sprintf("%s/reconnect-from-other-address-%d", desc, k), true)
+							ev.Count("reconnects-from-another-address", 1)
+							wh, wp := ov.Host, ov.Port
+							if wh == "" {
+								wh = src3.Host
+							}
+							if wp == "" {
+								wp = "30303"
+							}
+							if err3 != nil {
+								ev.Violate("valid-registration-refused:reconnect:"+ov.Name, map[string]interface{}{"case": desc, "source_addr": src3.Addr, "err": err3.Error()})
+							} else if st3, gerr3 := w.RawStore.GetNode(store.NodeID(id.NodeID)); gerr3 == nil {
+								pu3, perr3 := ethnode.ParseNodeURI(st3.URI)
+								h3, p3, serr3 := "", "", error(nil)
+								if perr3 == nil {
+									h3, p3, serr3 = net.SplitHostPort(pu3.Host)
+								}
+								if perr3 != nil || serr3 != nil || h3 != wh || p3 != wp || pu3.ID() != id.NodeID {
+									ev.Violate("reconnect-from-another-address:stale-or-wrong-address", map[string]interface{}{"case": desc, "first_source": src.Addr, "new_source": src3.Addr, "stored_uri": strings.Replace(st3.URI, id.NodeID, "<own-id>", -1), "want_host": wh, "want_port": wp})
+								}
+							}
+							conn3.Close()
+						}
+					}
 				}
 			}
 		}
